@@ -20,12 +20,12 @@ type thread struct {
 
 // Result is what one scheduled execution produced.
 type Result struct {
-	Deadlock   bool
-	Overrun    bool // step horizon exceeded
-	Panics     []string
-	Switches   int
-	Points     int
-	Handovers  int // context switches that happened between two sync operations on the same object (diagnostic)
+	Deadlock  bool
+	Overrun   bool // step horizon exceeded
+	Panics    []string
+	Switches  int
+	Points    int
+	Handovers int // context switches that happened between two sync operations on the same object (diagnostic)
 }
 
 type abortExecution struct{}
